@@ -803,8 +803,6 @@ impl Overlay {
 
         let _write_guard = nomt.access_lock.write();
 
-        let marker = self.mark_committed();
-
         {
             let mut shared = nomt.shared.lock();
             if shared.root != self.prev_root() {
@@ -814,6 +812,9 @@ impl Overlay {
                     shared.root
                 );
             }
+            // Only an overlay that passed the check counts as committed: a rejected one must not
+            // make its children look like they have a complete ancestry.
+            let marker = self.mark_committed();
             shared.root = root;
             shared.last_commit_marker = Some(marker);
         }
@@ -861,8 +862,6 @@ impl Overlay {
             return Ok(Some(self));
         }
 
-        let marker = self.mark_committed();
-
         {
             let mut shared = nomt.shared.lock();
             if shared.root != self.prev_root() {
@@ -872,6 +871,7 @@ impl Overlay {
                     shared.root
                 );
             }
+            let marker = self.mark_committed();
             shared.root = root;
             shared.last_commit_marker = Some(marker);
         }
